@@ -29,7 +29,7 @@ ASSUMPTIONS = [
     "TypeError parity is judged on 'raises TypeError', not on the message; parameter names avoid binder internals",
 ]
 EXHAUSTIVE = {"quick": True, "thorough": True}
-PLAN = {"quick": dict(max_per_kind=1, variants=("function", "method", "instance", "decorated", "coroutine"), shapes_cap=60, extra_sigs=300),
+PLAN = {"quick": dict(max_per_kind=1, variants=("function", "method", "instance", "class", "decorated", "coroutine"), shapes_cap=60, extra_sigs=300),
         "thorough": dict(max_per_kind=2, variants=("function", "method", "static", "classmethod", "instance", "class", "decorated", "coroutine"), shapes_cap=400, extra_sigs=6000)}
 FLOORS = {"quick": {"calls_compared": 20000, "rows_hit": 32, "binder_classes_hit": 14, "rejected_shapes_checked": 2500, "wrap_metadata_checked": 300,
                     "postponed_annotation_modules": 100, "calls_with_composite_annotations": 3000},
@@ -269,7 +269,9 @@ def build_variants(src, params, variants, modname, future=False):
     code += "async " + render(params, "coro") + "\n"
     pnames = {p_[0] for p_ in params}
     me, kls = ("me" if "self" in pnames else "self"), ("kls" if "cls" in pnames else "cls")
-    code += "class Holder:\n"
+    # class-level annotations called like the parameters, with OTHER types: attributes of the class are not parameters of its methods
+    attrs = "".join(f"    {p_[0]}: {'int' if p_[2] == 'bytes' else 'bytes'}\n" for p_ in params if p_[0].isidentifier())
+    code += "class Holder:\n" + attrs
     code += "\n".join("    " + l for l in render(params, "meth", first=me).splitlines()) + "\n"
     code += "    @staticmethod\n" + "\n".join("    " + l for l in render(params, "smeth").splitlines()) + "\n"
     code += "    @classmethod\n" + "\n".join("    " + l for l in render(params, "cmeth", first=kls).splitlines()) + "\n"
@@ -277,7 +279,7 @@ def build_variants(src, params, variants, modname, future=False):
     names = [p[0] for p in params]
     init = render(params, "__init__", first=me).replace("return {" + ", ".join(f"{n!r}: {n}" for n in names) + "}",
                                                               me + ".received = {" + ", ".join(f"{n!r}: {n}" for n in names) + "}")
-    code += "class Klass:\n" + "\n".join("    " + l for l in init.splitlines()) + "\n"
+    code += "class Klass:\n" + attrs + "\n".join("    " + l for l in init.splitlines()) + "\n"
     exec(compile(code, f"/verif/out/generated/{modname}.py", "exec", dont_inherit=True), mod.__dict__)
     h = mod.Holder()
     allv = {"coroutine": mod.coro, "decorated": mod.decorated, "function": mod.f, "method": h.meth, "static": mod.Holder.smeth, "classmethod": mod.Holder.cmeth, "instance": h, "class": mod.Klass}
